@@ -29,5 +29,20 @@ func specs() map[string]*spec {
 		Rule: "writing: every length {0,4,..,520,1020,1024,4096,65536,2^20} in both modes, wire bytes vs reference framing; reading: EVERY composition of every short reference-framed stream (<=12 bytes quick, <=15 thorough) through go-dry's CancelableReader (the exact-count mechanism tcpConn uses), plus PRNG segmentations/1-byte-at-a-time/whole for sequences of 1-6 longer messages, then EOF; loopback TCP through transport.NewTransport with a peer writing PRNG segments (TCP_NODELAY, paced) of plain-envelope messages and 4-byte signed error codes, then orderly close; distinct = distinct (mode, shape, composition or segmentation class)",
 		Assumptions: []string{"ref/mtp framing", "kernel loopback TCP; the actual split seen by the reader on the TCP path is decided by the kernel (deterministic path covers all compositions)"},
 	})
+	add(&spec{ID: "C12", Level: "exploration",
+		WLs: []wlSpec{{Name: "c12", TimeoutS: 600}},
+		Rule: "PRNG sessions (key 0..512 bytes, hash 0..20, boundary salts, hostnames with non-ASCII/JSON metacharacters) stored and loaded through same and fresh loaders over absolute/relative/dot-relative/bare paths; histories of 1-8 store/load ops over 1-3 loaders against a one-register model, each natively and with one-second mtime emulation; every strict prefix of stored files as crash points; distinct = distinct (path kind, key/hash length, salt, host) / (history, coarse) / (file, cut)",
+		Assumptions: []string{"local filesystem; os.Chtimes truncation to one second emulates coarse-mtime filesystems", "hostnames are valid UTF-8"},
+	})
+	add(&spec{ID: "C17", Level: "exploration",
+		WLs: []wlSpec{{Name: "c17", Shards: 8, TimeoutS: 300}},
+		Rule: "15 table rows x 23 parameter spellings + edge forms, every catalogued name (read from /repo/errors.go with go/parser at run time), PRNG texts with % verbs and overlapping prefixes, x codes; oracle zones strict/plain/don't-care (ref/rpcerr); distinct = distinct (zone, text)",
+		Assumptions: []string{"ref/rpcerr restates the 15-row table of the property", "the catalogue in errors.go is the documentation of descriptions"},
+	})
+	add(&spec{ID: "C18", Level: "exploration",
+		WLs: []wlSpec{{Name: "c18", TimeoutS: 900}},
+		Rule: "passwords (Unicode, NUL, long) x salt lengths {0,1,8,16,32,64} x g in 2..7 x server secrets, corners B/A/S with a leading zero byte (searched at run time; client secret scripted through crypto/rand.Reader), padded and unpadded B; right password must verify on an independent SRP server holding only v, a neighbouring wrong password must not; empty password; B in {0,p,p+1,long,empty}; distinct = distinct (password, salt lengths, g, corner, len B)",
+		Assumptions: []string{"ref/srpsrv implements core.telegram.org/api/srp server side with hand-written PBKDF2-HMAC-SHA512", "2048-bit MTProto DH prime as SRP group"},
+	})
 	return m
 }
